@@ -230,3 +230,5 @@ def run(chk, F):
     chk.run_rule("C07.scan-stops-at-stale-blob", "the block scan ends at the first blob whose sequence regresses against the last entry recovered from the block", 2, C01.block_regression, F)
     chk.run_rule("C07.scan-stops-at-damaged-blob", "blob index used only after its checksum matched; a damaged index ends the scan", 3, C03.blob_index, F)
     chk.run_rule("C07.splitter-updates", "the splitter's state updates, emitted parts and entry offsets as affine forms; split_blob / seal_blob agree", 10, splitter, F)
+    from rules import mustcall
+    mustcall.run_for(chk, F, "C07")
